@@ -406,7 +406,7 @@ impl Blockstore for BlockstoreImpl {
             .disseminated
             .commitment_cache
             .get(&slice)
-            .copied()
+            .map(|(commitment, _)| *commitment)
     }
 
     /// Gives reference to stored shred for given `block_id`, `slice_index` and `shred_index`.
